@@ -11,6 +11,7 @@ import (
 	"net"
 	"os"
 	"sync"
+	"sync/atomic"
 	"time"
 	"unsafe"
 
@@ -176,6 +177,34 @@ func (c *c06Conn) Close() error {
 		c.kick()
 	}
 	return nil
+}
+
+// c06PrefixConn models a wrapper that sits between the socket and the sniffer and replays bytes
+// it has already taken off the socket (what a prefetch step in front of the sniffer leaves
+// behind). Like such wrappers do, a Read hands out the held bytes and tops the caller's buffer up
+// with ONE read of the socket, so a Read can return n > 0 together with the socket's error
+// (deadline expired, EOF) - which the io.Reader contract allows and callers have to honour.
+type c06PrefixConn struct {
+	*c06Conn
+	prefix      []byte
+	off         int
+	dataWithErr atomic.Int32
+}
+
+func (c *c06PrefixConn) Read(p []byte) (int, error) {
+	n := 0
+	if c.off < len(c.prefix) {
+		n = copy(p, c.prefix[c.off:])
+		c.off += n
+		if n == len(p) {
+			return n, nil
+		}
+	}
+	m, err := c.c06Conn.Read(p[n:])
+	if n > 0 && err != nil {
+		c.dataWithErr.Add(1)
+	}
+	return n + m, err
 }
 
 type c06Addr string
